@@ -1,10 +1,12 @@
 SPECIFICATION Spec
 CONSTANTS MaxPre = 2 MaxN = 5
-  PreAlphabet <- AlphaQuick
+  PreAlphabet <- AlphaThorough
   Accs <- AccsQuick
   Posts <- PostsQuick
-  Pairs = {TRUE, FALSE}
+  FlowKinds = {"bare", "ctx"}
   Drivers = {"run", "fill", "split"}
+  Places = {"alone", "middle"}
+  CopyMode = "per_branch"
   Bufs <- BufAll
 INVARIANT DriversAgree
 INVARIANT FillReaches
